@@ -69,7 +69,6 @@ let handle (toks : string list) : string =
       (match conn_run f (List.map bytes_of_hex chunks) [] [] with
        | Open (ms, buf) -> Printf.sprintf "O %d %s" (List.length buf) (msgs_str ms)
        | Closed (ms, e) -> Printf.sprintf "X %s %s" (cerr_str e) (msgs_str ms)
-       | Aborted ms -> Printf.sprintf "A %s" (msgs_str ms)
        | Crashed -> "P"
        | NoFuel -> "U")
   | _ -> "?unknown"
